@@ -393,6 +393,11 @@ func RunCase(t *testing.T, c *Case, work, sched *choice.Source, st *Stats) (fs [
 	// (auxiliary tape) nested renders: one case in eight
 	if aux := sched.Aux(); !huge && aux.Intn(8) == 7 {
 		obj.nestEvery = uint64([]int{1, 1, 2, 5, 17}[aux.Intn(5)])
+		if numSamples > 64 && obj.nestEvery < 17 {
+			// (deep sampling: thousands of samples per pixel; a nested render for each
+			// would run into the step budget)
+			obj.nestEvery = 17
+		}
 		obj.inner = &render3d.ColliderObject{Collider: &model3d.Sphere{Center: model3d.XYZ(0, 3, 0), Radius: 1.5},
 			Material: &render3d.LambertMaterial{EmissionColor: render3d.NewColorRGB(0.25, 0.5, 0.75), AmbientColor: render3d.NewColorRGB(0.1, 0.2, 0.3)}}
 		obj.innerCam = render3d.NewCameraAt(model3d.XYZ(0, 0, 0), model3d.XYZ(0, 1, 0), math.Pi/3)
@@ -402,7 +407,7 @@ func RunCase(t *testing.T, c *Case, work, sched *choice.Source, st *Stats) (fs [
 		st.probe("nested renders (Cast renders a picture of another scene)")
 		st.Desc += fmt.Sprintf(" nested-render-every=%d", obj.nestEvery)
 	}
-	res := simsched.Run(t, simsched.Config{Src: sched, Sticky: sticky, Knobs: knobs, Policy: pol}, func() {
+	res := simsched.Run(t, simsched.Config{Src: sched, Sticky: sticky, Knobs: knobs, Policy: pol, MaxSteps: 1600000}, func() {
 		switch renderer {
 		case 0, 1:
 			(&render3d.RecursiveRayTracer{Camera: cam, MaxDepth: 0, NumSamples: numSamples, MinSamples: minSamples, MaxStddev: maxStddev,
